@@ -5,54 +5,105 @@ import FsModel.Ref
 import FsProofs.Lemmas.QueryLemmas
 
 namespace Fs.C10
-open Fs Fs.Ref
+open Fs Fs.Ref Fs.QueryLemmas
 
 /-- queries never change the state -/
 theorem queries_pure (s : State) (p : Str) :
     (step s (.exists_ p)).1 = s ∧ (step s (.isdir p)).1 = s ∧ (step s (.isfile p)).1 = s ∧
     (step s (.listdir p)).1 = s ∧ (step s (.getsize p)).1 = s ∧ (step s (.gettype p)).1 = s ∧
     (step s (.isempty p)).1 = s ∧ (step s (.getinfo p)).1 = s ∧ (step s (.readbytes p)).1 = s := by
-  sorry
+  simp only [step_q s (.exists_ p) p rfl (by simp), step_q s (.isdir p) p rfl (by simp),
+    step_q s (.isfile p) p rfl (by simp), step_q s (.listdir p) p rfl (by simp),
+    step_q s (.getsize p) p rfl (by simp), step_q s (.gettype p) p rfl (by simp),
+    step_q s (.isempty p) p rfl (by simp), step_q s (.getinfo p) p rfl (by simp),
+    step_q s (.readbytes p) p rfl (by simp)]
+  cases s.closed <;> cases validate p <;> simp [fail, done, step1]
+  generalize Node.get _ s.root = g
+  rcases g with _ | ⟨_ | _⟩ <;> simp
 
 theorem exists_eq_isdir_or_isfile (s : State) (p : Str) (e d f : Bool)
     (he : (step s (.exists_ p)).2 = .ok (.bool e)) (hd : (step s (.isdir p)).2 = .ok (.bool d))
     (hf : (step s (.isfile p)).2 = .ok (.bool f)) : e = (d || f) ∧ (d && f) = false := by
-  sorry
+  obtain ⟨cs, hc, hv⟩ := step_q_ok s _ p _ rfl (by simp) he
+  rw [step_q_of s _ p cs rfl (by simp) hc hv] at he hd hf
+  simp only [step1, done, Res.ok.injEq, Val.bool.injEq] at he hd hf
+  subst he hd hf
+  rcases Node.get cs s.root with _ | ⟨_ | _⟩ <;> simp
 
 theorem isempty_iff_listdir_nil (s : State) (p : Str) (l : List Name)
     (h : (step s (.listdir p)).2 = .ok (.names l)) :
     (step s (.isempty p)).2 = .ok (.bool l.isEmpty) := by
-  sorry
+  obtain ⟨cs, hc, hv⟩ := step_q_ok s _ p _ rfl (by simp) h
+  rw [step_q_of s _ p cs rfl (by simp) hc hv] at h ⊢
+  simp only [step1] at h ⊢
+  generalize Node.get cs s.root = g at h ⊢
+  rcases g with _ | ⟨_ | es⟩ <;> simp [fail, done] at h ⊢
+  subst h
+  cases es <;> simp [Ents.names]
 
 theorem listdir_ok_iff_isdir (s : State) (p : Str) (hc : s.closed = false) :
     (∃ l, (step s (.listdir p)).2 = .ok (.names l)) ↔ (step s (.isdir p)).2 = .ok (.bool true) := by
-  sorry
+  rw [step_one s _ p hc rfl (by simp), step_one s _ p hc rfl (by simp)]
+  cases validate p with
+  | err e => simp [fail]
+  | ok cs =>
+    simp only [step1]
+    rcases Node.get cs s.root with _ | ⟨_ | es⟩ <;> simp [fail, done]
 
 theorem listdir_nodup (s : State) (p : Str) (l : List Name) (hwf : s.root.wf = true)
     (h : (step s (.listdir p)).2 = .ok (.names l)) : l.Nodup := by
-  sorry
+  obtain ⟨cs, hc, hv⟩ := step_q_ok s _ p _ rfl (by simp) h
+  rw [step_q_of s _ p cs rfl (by simp) hc hv] at h
+  simp only [step1] at h
+  cases hg : Node.get cs s.root with
+  | none => rw [hg] at h; simp [fail] at h
+  | some n =>
+    rw [hg] at h
+    cases n with
+    | file b => simp [fail] at h
+    | dir es =>
+      simp [done] at h
+      subst h
+      have := get_wf cs s.root _ hwf hg
+      exact entsWf_names_nodup es (by simpa [Node.wf] using this)
 
 theorem getsize_eq_len_readbytes (s : State) (p : Str) (b : Bytes)
     (h : (step s (.readbytes p)).2 = .ok (.bytes b)) :
     (step s (.getsize p)).2 = .ok (.nat b.length) ∧
     ∃ n, (step s (.getinfo p)).2 = .ok (.info n false b.length) := by
-  sorry
+  obtain ⟨cs, hc, hv⟩ := step_q_ok s _ p _ rfl (by simp) h
+  rw [step_q_of s _ p cs rfl (by simp) hc hv] at h ⊢
+  rw [step_q_of s (.getinfo p) p cs rfl (by simp) hc hv]
+  simp only [step1] at h ⊢
+  generalize Node.get cs s.root = g at h ⊢
+  rcases g with _ | ⟨_ | es⟩ <;> simp [fail, done] at h ⊢
+  subst h; rfl
 
 theorem gettype_isdir_isfile_agree (s : State) (p : Str) (t : Nat)
     (h : (step s (.gettype p)).2 = .ok (.nat t)) :
     (t = 1 ∧ (step s (.isdir p)).2 = .ok (.bool true) ∧ (step s (.isfile p)).2 = .ok (.bool false)) ∨
     (t = 2 ∧ (step s (.isdir p)).2 = .ok (.bool false) ∧ (step s (.isfile p)).2 = .ok (.bool true)) := by
-  sorry
+  obtain ⟨cs, hc, hv⟩ := step_q_ok s _ p _ rfl (by simp) h
+  rw [step_q_of s _ p cs rfl (by simp) hc hv] at h
+  rw [step_q_of s (.isdir p) p cs rfl (by simp) hc hv, step_q_of s (.isfile p) p cs rfl (by simp) hc hv]
+  simp only [step1] at h ⊢
+  generalize Node.get cs s.root = g at h ⊢
+  rcases g with _ | ⟨_ | es⟩ <;> simp [fail, done] at h ⊢ <;> omega
 
 theorem getinfo_isdir_agree (s : State) (p : Str) (n : Name) (d : Bool) (sz : Nat)
     (h : (step s (.getinfo p)).2 = .ok (.info n d sz)) :
     (step s (.isdir p)).2 = .ok (.bool d) ∧ (step s (.exists_ p)).2 = .ok (.bool true) := by
-  sorry
+  obtain ⟨cs, hc, hv⟩ := step_q_ok s _ p _ rfl (by simp) h
+  rw [step_q_of s _ p cs rfl (by simp) hc hv] at h
+  rw [step_q_of s (.isdir p) p cs rfl (by simp) hc hv, step_q_of s (.exists_ p) p cs rfl (by simp) hc hv]
+  simp only [step1] at h ⊢
+  generalize Node.get cs s.root = g at h ⊢
+  rcases g with _ | ⟨_ | es⟩ <;> simp [fail, done] at h ⊢ <;> simp [h]
 
 /-- every listed name is an existing child, and every existing child is listed (on the tree) -/
 theorem listed_iff_child (t : Node) (cs : List Name) (es : Ents) (n : Name)
     (h : t.get cs = some (.dir es)) : n ∈ Ents.names es ↔ (t.get (cs ++ [n])).isSome = true := by
-  sorry
+  rw [get_append, h, Option.bind_some, get_single_dir, lookup_isSome_iff]
 
 example : (step State.empty (.isempty "/".toList)).2 = .ok (.bool true) := by decide
 
